@@ -45,8 +45,8 @@ func init() {
 const pw = "encoding/protowire."
 
 type varintCase struct {
-	n     int            // bytes emitted
-	zero  int            // lowest input bit forced to 0 by the case guard (64 if none)
+	n     int // bytes emitted
+	zero  int // lowest input bit forced to 0 by the case guard (64 if none)
 	subst map[int]uint8
 	bytes *blist
 }
